@@ -519,7 +519,7 @@ func c17Do(s c17Sys, op c17Op) []c17Obs {
 	return nil
 }
 
-const c17HotSpin = 4000
+const c17HotSpin = 20000
 
 // c17RunPhase runs the scripts, one goroutine each, released together by a spin barrier. With clk != nil every
 // operation is stamped call/return with the shared logical clock (an atomic counter: if A returned before B was
@@ -529,7 +529,11 @@ func c17RunPhase(s c17Sys, scripts [][]c17Op, clk *atomic.Int64) (reads [][]c17R
 	reads = make([][]c17Read, n)
 	evs = make([][]c17Ev, n)
 	panics := make([]string, n)
-	var ready, release atomic.Int32
+	var ready, release, armed atomic.Int32
+	budget := c17HotSpin
+	if n >= runtime.GOMAXPROCS(0) {
+		budget = c17HotSpin / 10 // they cannot all be on a CPU at once: do not wait long for that
+	}
 	var wg sync.WaitGroup
 	for g := range scripts {
 		wg.Add(1)
@@ -541,13 +545,16 @@ func c17RunPhase(s c17Sys, scripts [][]c17Op, clk *atomic.Int64) (reads [][]c17R
 				}
 			}()
 			sc := scripts[g]
+			// two-stage barrier. Stage 1 (arrival) yields while waiting, so that more goroutines than free cores all
+			// arrive. Stage 2: every goroutine that saw the release arms itself and spins hot (it is on a CPU while it
+			// spins) until all are armed or its spin budget is used up, so that goroutines which can run in parallel
+			// start within nanoseconds of each other.
 			ready.Add(1)
-			// spin hot first (goroutines on different Ps then see the release within nanoseconds of each other),
-			// yield once the spin budget is used up so that more goroutines than free cores still all arrive
-			for spin := 0; release.Load() == 0; spin++ {
-				if spin > c17HotSpin {
-					runtime.Gosched()
-				}
+			for release.Load() == 0 {
+				runtime.Gosched()
+			}
+			armed.Add(1)
+			for spin := 0; int(armed.Load()) < n && spin < budget; spin++ {
 			}
 			for i, op := range sc {
 				if clk != nil {
